@@ -109,8 +109,12 @@ def check_read_conf(ctx, rng):
         os.makedirs(cwd)
         os.chdir(cwd)
         # locations
-        abs_pib = os.path.join(root, 'stores', 'pib')
-        abs_tpm = os.path.join(root, 'stores', 'tpm')
+        import locale
+        utf8 = locale.getpreferredencoding(False).lower().replace('-', '') in ('utf8',) and sys.getfilesystemencoding().lower().replace('-', '') == 'utf8'
+        ctx.klass('non-ascii-locations' if utf8 else 'non-ascii-locations-skipped:locale-is-not-utf8')
+        # store locations with non-ASCII characters (the file is text in the locale's encoding, UTF-8 here)
+        abs_pib = os.path.join(root, 'stores', 'pib-Schlüssel' if utf8 else 'pib')
+        abs_tpm = os.path.join(root, 'stores', 'tpm-clés-nœud' if utf8 else 'tpm')
         os.makedirs(abs_pib)
         os.makedirs(abs_tpm)
         for c in all_user_cands + sys_cands:
@@ -128,7 +132,7 @@ def check_read_conf(ctx, rng):
         default_locs = {'pib': os.path.join(home, '.ndn'), 'tpm': os.path.join(home, '.ndn', 'ndnsec-key-file')}
         loc_choices = {'none': None, 'abs': 'ABS', 'rel-file': 'relstore', 'rel-cwd': 'cwdstore', 'missing-abs': os.path.join(root, 'nope'),
                        'missing-rel': 'nonexistent-dir'}
-        transports = ['unix:///tmp/x.sock', 'tcp://10.0.0.1:7000', 'udp4://host.example']
+        transports = ['unix:///tmp/x.sock', 'tcp://10.0.0.1:7000', 'udp4://host.example'] + (['unix:///tmp/nfd-sœur/ü.sock'] if utf8 else [])
 
         def value_for(key, loc_kind, variant):
             if key == 'transport':
